@@ -106,3 +106,72 @@ Proof.
     + intros [-> [r ->]]. eauto.
     + intros [r H]. injection H as -> ->. eauto.
 Qed.
+
+(* ---------- more string operations used by the generator model ---------- *)
+Fixpoint drop_prefix (p s : bytes) : option bytes :=
+  match p, s with
+  | [], _ => Some s
+  | a :: p', b :: s' => if beq a b then drop_prefix p' s' else None
+  | _ :: _, [] => None
+  end.
+
+Lemma drop_prefix_app p r : drop_prefix p (p ++ r) = Some r.
+Proof. induction p as [|a p IH]; [reflexivity|]. simpl. rewrite beq_refl. exact IH. Qed.
+
+Lemma drop_prefix_some p s r : drop_prefix p s = Some r -> s = p ++ r.
+Proof.
+  revert s. induction p as [|a p IH]; intros s H; simpl in H.
+  - injection H as ->. reflexivity.
+  - destruct s as [|b s]; [discriminate|]. destruct (beq a b) eqn:E; [|discriminate].
+    apply beq_eq in E. subst. simpl. f_equal. apply IH. exact H.
+Qed.
+
+(* strings.TrimPrefix *)
+Definition trim_prefix (p s : bytes) : bytes := match drop_prefix p s with Some r => r | None => s end.
+
+(* split on the first occurrence of c: (before, Some after) or (s, None) *)
+Fixpoint cut (c : byte) (s : bytes) : bytes * option bytes :=
+  match s with
+  | [] => ([], None)
+  | x :: r => if beq x c then ([], Some r)
+              else let '(a, b) := cut c r in (x :: a, b)
+  end.
+
+(* ASCII white space as removed by strings.TrimSpace: \t \n \v \f \r and space *)
+Definition is_space (c : byte) : bool :=
+  beq c " "%byte || (N.leb 9 (b2n c) && N.leb (b2n c) 13).
+
+Fixpoint trim_left_space (s : bytes) : bytes :=
+  match s with
+  | x :: r => if is_space x then trim_left_space r else s
+  | [] => []
+  end.
+
+Definition trim_space (s : bytes) : bytes := rev (trim_left_space (rev (trim_left_space s))).
+
+Definition remove_byte (c : byte) (s : bytes) : bytes := filter (fun x => negb (beq x c)) s.
+
+(* lexicographic order on byte strings (Go's < on strings) *)
+Fixpoint bytes_ltb (a b : bytes) : bool :=
+  match a, b with
+  | [], [] => false
+  | [], _ :: _ => true
+  | _ :: _, [] => false
+  | x :: a', y :: b' => if blt x y then true else if blt y x then false else bytes_ltb a' b'
+  end.
+
+(* sort.SliceStable by a key: stable insertion sort *)
+Section Sort.
+  Context {A : Type} (key : A -> bytes).
+  Fixpoint insert_stable (x : A) (l : list A) : list A :=
+    match l with
+    | [] => [x]
+    | y :: r => if bytes_ltb (key y) (key x) then y :: insert_stable x r else x :: l
+    end.
+  (* fold from the right so that equal keys keep their original order *)
+  Fixpoint sort_stable (l : list A) : list A :=
+    match l with
+    | [] => []
+    | x :: r => insert_stable x (sort_stable r)
+    end.
+End Sort.
